@@ -1282,3 +1282,12 @@ def run(res, facts, tier):
     _run_c02_28(res, facts, tier)
     from . import c02_path
     c02_path.run_rule(res, facts, tier)
+
+
+_run_c02_29 = run
+
+
+def run(res, facts, tier):
+    _run_c02_29(res, facts, tier)
+    from . import c02_expr
+    c02_expr.run_rule(res, facts, tier)
